@@ -9,3 +9,7 @@ def g(a=0):
 class K:
   def __init__(self, r=0):
     self.r = r
+
+
+def shared(a=0):
+  return ('shared-sub', a)
